@@ -63,6 +63,18 @@ async def one_call(sc, shape, name):
         # the uploading task itself that reads whatever the server sent meanwhile (a GOAWAY, for instance)
         body = api.body([b"g" * 30000] * 5)
         r = await api.request("POST", sc.url(), headers=hdrs, content=body, extensions=ext)
+    elif shape == "post-once":
+        # a body that can be produced only once (a plain generator): whatever a re-send does, it cannot send it again
+        chunks = [b"a" * 700, b"b" * 700, b"c" * 600]
+        if api.a:
+            async def once():
+                for c in chunks:
+                    yield c
+        else:
+            def once():
+                for c in chunks:
+                    yield c
+        r = await api.request("POST", sc.url(), headers=hdrs, content=once(), extensions=ext)
     else:
         body = api.body([b"a" * 700, b"b" * 700, b"c" * 600])
         r = await api.request("POST", sc.url(), headers=hdrs, content=body, extensions=ext)
@@ -264,6 +276,7 @@ def run_part_b(case):
                                   else:
                                       rs = counted[0]
                                       want = {"get": b"", "post-bytes": b"B" * 2000, "post-iter": b"a" * 700 + b"b" * 700 + b"c" * 600,
+                                              "post-once": b"a" * 700 + b"b" * 700 + b"c" * 600,
                                               "post-big": b"g" * 150000}[shape]
                                       if bytes(rs.body) != want:
                                           v(f"resent-request-body-mismatch:{shape}", f"re-sent request of {tok} carried "
@@ -369,7 +382,7 @@ def plan(tier, seed):
                         cases.append({"part": "A", "ctype": ctype, "shape": shape, "n": n, "retries": retries,
                                       "flavor": flavor, "tier": tier, "seed": r.randrange(1 << 30)})
     for ctype in ("h2", "h2pk"):
-        for shape in ("get", "post-bytes", "post-iter", "post-big"):
+        for shape in ("get", "post-bytes", "post-iter", "post-big", "post-once"):
             for flavor in ("asyncio", "trio"):
                 cases.append({"part": "B", "ctype": ctype, "shape": shape, "flavor": flavor, "tier": tier,
                               "seed": r.randrange(1 << 30),
